@@ -420,6 +420,56 @@ def probe_batched(ctx):
                 ctx.count('batched-calls', 3)
 
 
+def probe_ray_invariance(ctx):
+    """the boundaries belong to the ray, not to the point naming it: the same ray given by points at Gell-Mann distance 10^-k from the
+    maximally mixed state (k = 0..10) must give the same beta_l, beta_u (dm_norm not supplied), and each answer must be the two-sided
+    threshold.  A point at distance 10^-k is stored with relative direction error eps*10^k (1/N + tiny), measured on the unchanged tree:
+    max deviation 1.0..1.5 * 2.2e-16 * 10^k over 120 rays; allowed: 1e-12 + 20 * 2.2e-16 * 10^k."""
+    import numqi
+    rng = np.random.default_rng(ctx.np_seed + 15)
+    eps = 2.2e-16
+    reps = 2 if ctx.quick() else 8
+    mineig = lambda m: np.linalg.eigvalsh((m + m.conj().T) / 2)[0]
+    for dA, dB in DIMS:
+        N = dA * dB
+        for rep in range(reps):
+            rho = rand_dm(rng, N) if rep % 2 == 0 else rand_direction_state(rng, N)
+            bl, bu = numqi.entangle.get_density_matrix_boundary(rho)
+            pl, pu = numqi.entangle.get_ppt_boundary(rho, (dA, dB))
+            bad = []
+            worst = None
+            for k in range(0, 11):
+                pt = numqi.entangle.hf_interpolate_dm(rho, beta=10.0 ** -k)
+                tol = 1e-12 + 20 * eps * 10 ** k
+                try:
+                    l, u = numqi.entangle.get_density_matrix_boundary(pt)
+                    l2, u2 = numqi.entangle.get_ppt_boundary(pt, (dA, dB))
+                except Exception as e:
+                    bad.append(f'distance 1e-{k}: raised {type(e).__name__}'); worst = worst or (k, pt); continue
+                dev = max(abs(l / bl - 1), abs(u / bu - 1))
+                devp = max(abs(l2 / pl - 1), abs(u2 / pu - 1))
+                ctx.extra['ray_invariance_max_dev_over_eps10k'] = max(ctx.extra.get('ray_invariance_max_dev_over_eps10k', 0.0), float(max(dev, devp) / (eps * 10 ** k)))
+                if dev > tol:
+                    bad.append(f'distance 1e-{k}: get_density_matrix_boundary gives ({l!r},{u!r}) instead of ({bl!r},{bu!r}), relative deviation {dev:.2e} > {tol:.1e}'); worst = worst or (k, pt)
+                if devp > tol:
+                    bad.append(f'distance 1e-{k}: get_ppt_boundary gives ({l2!r},{u2!r}) instead of ({pl!r},{pu!r}), relative deviation {devp:.2e} > {tol:.1e}'); worst = worst or (k, pt)
+                if k <= 8:
+                    # two-sided threshold of the answer obtained from this point; offset large enough to dominate the cancellation
+                    # noise of hf_interpolate_dm (alpha = beta/|pt| ~ 10^k)
+                    delta = max(1e-6, 1e4 * eps * 10 ** k)
+                    for b, name in ((u, 'beta_u'), (l, 'beta_l')):
+                        vin = mineig(numqi.entangle.hf_interpolate_dm(pt, beta=b * (1 - delta)))
+                        vout = mineig(numqi.entangle.hf_interpolate_dm(pt, beta=b * (1 + delta)))
+                        if not (vin > 0.25 * delta / N and vout < -0.25 * delta / N):      # exact values: +delta/N, -delta/N
+                            bad.append(f'distance 1e-{k}: {name}={b!r} is not the threshold (min eigenvalue just inside {vin:.3g}, just outside {vout:.3g}, offset {delta:.1e})'); worst = worst or (k, pt)
+            if bad:
+                k0, pt0 = worst
+                ctx.fail('ray-invariance', f'({dA},{dB}): ' + '; '.join(bad[:2]) + (f' (+{len(bad) - 2} more)' if len(bad) > 2 else ''),
+                         dict(op='get_density_matrix_boundary', dim=[dA, dB], distance=10.0 ** -k0, dm=_mat_replay(pt0), reference_dm=_mat_replay(rho)))
+            else:
+                ctx.probe_ok(('ray', dA, dB, rep))
+
+
 def probe_thresholds(ctx):
     import numqi
     rng = np.random.default_rng(ctx.np_seed + 10)
@@ -652,6 +702,7 @@ def probe_ordering(ctx):
 def probe(ctx):
     probe_thresholds(ctx)
     probe_batched(ctx)
+    probe_ray_invariance(ctx)
     probe_inner_models(ctx)
     probe_cha_alive(ctx)
     probe_ordering(ctx)
@@ -680,6 +731,8 @@ def search(ctx, hints):
     try:
         ctx.np_seed += 101
         probe_batched(ctx)
+        if not ctx.failures:
+            probe_ray_invariance(ctx)
         if not ctx.failures:
             probe_thresholds(ctx)
         if not ctx.failures:
